@@ -899,6 +899,8 @@ class Exec:
                 return DtypeRef(v.dtype)
             if a == "T" and v.ndim == 1:
                 return v
+            if a in ("values", "data"):
+                return v
             return BoundMethod(v, a)
         if isinstance(v, DtypeRef):
             if a == "kind":
@@ -1032,6 +1034,25 @@ class Exec:
         if m is None:
             raise Unsupported(f"statement {type(s).__name__} at {self.where(s)}")
         return m(s, st)
+
+    def s_FunctionDef(self, s, st):
+        st.env[s.name] = FuncClosure(s, dict(st.env))
+        return [(st, Outcome(NORMAL))]
+
+    def call_closure(self, fc, args, st):
+        sub = st.copy()
+        sub.env = dict(fc.env)
+        for p, a in zip(fc.node.args.args, args):
+            sub.env[p.arg] = a
+        sub.heap = st.heap
+        res = self.exec_block(fc.node.body, sub)
+        rets = [(c, o) for c, o in res if o.kind == RETURN]
+        if len(res) != 1 or len(rets) != 1:
+            raise Unsupported("nested function with several paths")
+        cur, oc = rets[0]
+        st.pc[:] = cur.pc
+        st.heap.update(cur.heap)
+        return oc.value
 
     def s_Pass(self, s, st):
         return [(st, Outcome(NORMAL))]
@@ -1232,6 +1253,12 @@ class Exec:
     def s_For(self, s, st):
         from . import loops
         return loops.exec_for(self, s, st)
+
+
+class FuncClosure:
+    def __init__(self, node, env):
+        self.node = node
+        self.env = env
 
 
 class BoundMethod:
